@@ -112,6 +112,10 @@ class Gen:
                 out += rng.choice([b"'", b'"'])
             elif r < 0.87:
                 out += rng.choice([b"\n", b"\t", b"\r", b"\\"])
+            elif r < 0.91:
+                # VALUES in which a backslash stands next to a quote, another backslash or a letter that names an
+                # escape: their spellings (\\' , \\\\ , \\n ...) are where escape handling goes wrong
+                out += rng.choice([b"\\'", b'\\"', b"\\\\", b"\\n", b"\\t", b"'\\", b'"\\', b"\\'\\"])
             else:
                 out += chr(rng.choice([0xe9, 0x3b1, 0x20ac, 0x1f600, 0x4e2d, 0xa0, 0x2028])).encode("utf8")
         if rich and rng.random() < 0.05:
